@@ -5,7 +5,7 @@ import numpy as np
 from hypothesis import strategies as st
 
 from .. import env, datasets as D
-from ..core import require, must_return
+from ..core import require, must_return, as_int_kind
 
 env.import_phylib()
 
@@ -44,12 +44,15 @@ def check(case):
 def _queries(m, st_, sc, nt, case):
     seen = []
     for c in sorted(set(sc) | set(case['extra_ids'])):
-        got = must_return('get_cluster_spikes', m.get_cluster_spikes, c)
+        salt = len(sc) + case['spec']['seed']
+        # the id is a Python int, a NumPy integer of some width or a 0-d array
+        got = must_return('get_cluster_spikes', m.get_cluster_spikes, as_int_kind(c, c + salt))
         exp = [i for i, x in enumerate(sc) if x == c]
         require(np.asarray(got).tolist() == exp, 'get_cluster_spikes(%d)' % c,
                 key='model-cluster-spikes', observed=got, expected=exp)
         seen.extend(exp)
-        cnt = must_return('get_template_counts', m.get_template_counts, c)
+        cnt = must_return('get_template_counts', m.get_template_counts,
+                          as_int_kind(c, c + salt + 3))
         e = [sum(1 for i in exp if st_[i] == t) for t in range(nt)]
         require(np.asarray(cnt).tolist() == e, 'get_template_counts(%d) is not the '
                 'per-template histogram of length n_templates' % c,
@@ -57,7 +60,8 @@ def _queries(m, st_, sc, nt, case):
     require(sorted(seen) == list(range(len(sc))), 'cluster queries do not partition the spikes',
             key='model-partition')
     for t in sorted(set(range(nt)) | set(case['extra_ids'])):
-        got = must_return('get_template_spikes', m.get_template_spikes, t)
+        got = must_return('get_template_spikes', m.get_template_spikes,
+                          as_int_kind(t, t + len(sc) + case['spec']['seed'] + 5))
         exp = [i for i, x in enumerate(st_) if x == t]
         require(np.asarray(got).tolist() == exp, 'get_template_spikes(%d)' % t,
                 key='model-template-spikes', observed=got, expected=exp)
